@@ -416,7 +416,11 @@ def loop_driver(fn, loop):
                     info["detail"] = fmt_sym(src, maxdepth=6)
                     info["call_bb"] = src[3]
                     return info
-                if src[1].endswith(("::pop", "::pop_front", "::pop_back")):
+                local_popper = False
+                callee = fn.prog.fns.get(src[1])
+                if callee is not None:
+                    local_popper = any(c2.name.endswith(("::pop", "::pop_front", "::pop_back", "::remove", "::swap_remove")) for c2 in callee.calls())
+                if src[1].endswith(("::pop", "::pop_front", "::pop_back")) or local_popper:
                     info["kind"] = "pop"
                     info["iter_sym"] = src[2][0] if src[2] else None
                     info["detail"] = fmt_sym(src, maxdepth=6)
